@@ -80,7 +80,7 @@ Spec == Init /\ [][Next]_vars
 Access(g) == IF pc[g] = "read" THEN [c |-> cur[g], w |-> FALSE] ELSE IF pc[g] = "write" THEN [c |-> cur[g], w |-> TRUE] ELSE [c |-> 0, w |-> FALSE]
 RaceFree == \A g1, g2 \in Procs : (g1 # g2 /\ Access(g1).c # 0 /\ Access(g1).c = Access(g2).c) => ~(Access(g1).w \/ Access(g2).w)
 SeqEquivalent == \A g \in Procs : \A k \in 1..Len(results[g]) : results[g][k] = "sequential-result"
-ReadOnlyAfterCreate == MODE = "create" => [][cache' = cache]_vars
+ReadOnlyAfterCreate == [][MODE = "create" => cache' = cache]_vars
 TypeOK == cache \in [Cells -> {"empty", "compiled"}] /\ \A g \in Procs : Len(results[g]) + left[g] <= Calls
 
 \* scenario enumeration for the harness (printed once)
